@@ -48,7 +48,9 @@ fn setup(h: &mut H) -> (Keys, Value, Vec<Issue>, Vec<Pok>) {
     let subs: Vec<Vec<usize>> = if h.thorough { subsets(n) } else { vec![vec![0], vec![1], vec![0, 2], vec![0, 1, 2], vec![]] };
     for u in subs {
         // hidden attributes are hash outputs (>= 2^200 with overwhelming probability), as the API produces
-        let msgs = attrs(h, n);
+        // hidden attributes are hash outputs (>= 2^200 with overwhelming probability), as the API produces; one
+        // subset uses the boundary vector instead (0 and 2^lm - 1 are legal attribute values)
+        let msgs = if u.len() == 2 { attrs_boundary(h, n, p.lm) } else { attrs(h, n) };
         if !u.is_empty() {
             // the same issuance WITH a trusted-party commitment (own modulus): its sub-proof that C and C_trusted
             // hide the same attributes answers for every hidden attribute once more
@@ -135,6 +137,7 @@ pub fn c17(h: &mut H) {
         let mut lv = Vec::new();
         leaves(proof, String::new(), &mut lv);
         h.stat(&format!("C17.{}.commitments", what));
+        let tape_artefact = !real_randomness && secrets.iter().any(|(_, x)| x.clone().abs() < two64());
         for (path, value, rnd) in &cs {
             // (1) the embedded randomness must not open the commitment to any secret under any public base pair
             for (g, hb) in &pairs {
@@ -144,12 +147,17 @@ pub fn c17(h: &mut H) {
                 }
             }
             // (2) no integer leaf anywhere in the proof is an opening randomness for this value
+            // (a proof regenerated from a boundary tape has EQUAL minimal blindings by construction; when a hidden
+            // attribute is 0 its response IS such a blinding and coincides with the minimal commitment randomness
+            // of every commitment -- an artefact of the tape, so that combination is skipped)
             for (lp, leaf) in &lv {
-                if *leaf < 0 {
+                if *leaf < 0 || tape_artefact {
                     continue;
                 }
                 for (g, hb) in &pairs {
                     for (sn, x) in secrets.iter().take(4) {
+                        // (a proof regenerated from a boundary tape has EQUAL minimal blindings by construction; for a
+                        // secret 0 a response then equals the commitment randomness -- an artefact of the tape)
                         let open = Integer::from(pm(g, x, n) * pm(hb, leaf, n)) % n;
                         h.expect(open != *value, "C17.opening_leaf", &format!("{}: {} opens to {} with field {}", what, path, sn, lp), &[id]);
                     }
@@ -167,6 +175,7 @@ pub fn c17(h: &mut H) {
         // (4) two-candidate dictionary attack: from the proof alone (value + any field as randomness), can the
         // committed attribute be told apart from a decoy?
         for (sn, x) in secrets.iter().take(3) {
+            if tape_artefact { break; }
             let decoy = Integer::from(x ^ Integer::from(1u32 << 7));
             let mut hit_true = false;
             let mut hit_decoy = false;
@@ -183,6 +192,9 @@ pub fn c17(h: &mut H) {
             h.expect(hit_true == hit_decoy, "C17.dictionary", &format!("{}: a two-candidate dictionary attack identifies {}", what, sn), &[id]);
             // the same attack through quotients of fields of the proof (a response divided by a challenge or by
             // another response), with a decoy far from the true value
+            // (a secret below 2^64, e.g. the legal attribute 0 or 1, is "near" the quotient of any two leaves of
+            // similar size: the quotient attack is meaningful for large secrets only; zero responses are C19's)
+            if x.clone().abs() < two64() { continue; }
             let far_decoy = Integer::from(x + (Integer::from(1) << 128u32));
             let mut q_true = false;
             let mut q_decoy = false;
@@ -303,12 +315,25 @@ pub fn c19(h: &mut H) {
         // response leaves: everything except public commitments / group elements is a candidate;
         // the property quantifies over ALL integer leaves
         h.stat(&format!("C19.{}.proofs", what));
+        // leaves that are sigma-protocol responses (s1, s2, s_1..s_9, s_5[k], d, d[k], d_1, d_2, D_1, D_2)
+        let is_response = |p: &String| -> bool {
+            let last = p.rsplit('.').next().unwrap_or("");
+            let stem = last.split('[').next().unwrap_or("");
+            matches!(stem, "s1" | "s2" | "d" | "d_1" | "d_2" | "D_1" | "D_2") || (stem.starts_with("s_") && stem[2..].chars().all(|c| c.is_ascii_digit()))
+        };
         for (lp, s) in &lv {
+            // a response that is exactly 0 answers for a secret 0 with no blinding at all
+            if *s == 0 && is_response(lp) {
+                h.expect(false, "C19.zero_response", &format!("{}: the response {} is exactly 0 (no blinding was added)", what, lp), &[id]);
+            }
             if *s <= 0 { continue; }
             for (cn, c) in challenges {
                 if *c <= 0 { continue; }
                 let q = Integer::from(s / c);
                 for (sn, x) in secrets {
+                    // for a secret below 2^64 (e.g. the legal attribute 0) every SMALL leaf divided by anything is
+                    // "near" it: only the responses are meaningful there
+                    if x.clone().abs() < two64() && !is_response(lp) { continue; }
                     h.expect(far(&q, x), "C19.div_challenge", &format!("{}: floor({} / {}) is within 2^64 of secret {}", what, lp, cn, sn), &[id]);
                 }
             }
@@ -321,6 +346,7 @@ pub fn c19(h: &mut H) {
                 if s.significant_bits() < s2.significant_bits() + 60 { continue; }
                 let q = Integer::from(s / s2);
                 for (sn, x) in secrets {
+                    if x.clone().abs() < two64() { continue; }
                     h.expect(far(&q, x), "C19.div_response", &format!("{}: floor({} / {}) is within 2^64 of secret {}", what, lp, lp2, sn), &[id]);
                 }
             }
